@@ -698,6 +698,19 @@ def dict_method(E, st, dv, meth, args, kwargs):
         if no is not None:
             res.append(Out("ok", no, default))
         return res
+    if meth == "pop":
+        key = E.coerce(args[0], dv.kind[1])
+        has, no = E.fork(st, E.dict_has(st, dv, key))
+        res = []
+        if has is not None:
+            for s2, v in E.dict_get(has, dv, key):
+                res.append(Out("ok", E.dict_del(s2, dv, key), v))
+        if no is not None:
+            if len(args) > 1:
+                res.append(Out("ok", no, args[1]))
+            else:
+                res.append(E.raise_(no, "KeyError", "pop of a missing key"))
+        return res
     if meth == "copy":
         s2, d2 = E.new_dict(st, dv.kind)
         s2 = s2.copy()
